@@ -317,6 +317,26 @@ pub fn gen(tier: Tier, r: &mut Rng, emit: &mut dyn FnMut(String)) {
             emit(format!("C12 run 0 {} {}", hex_bytes(&t), qs.join(",")));
         }
     }
+    // finding F10 stream (kept apart so that its known-finding class can never mask anything else):
+    // requests made ONLY of to_offset queries whose column exceeds 2^64 - 2^32
+    for _ in 0..(n_texts / 20) {
+        let t = gen_text(r, 3, 200);
+        let starts = naive_starts(&t);
+        let mut qs = Vec::new();
+        for _ in 0..r.range(1, 6) {
+            let li = r.usize_below(starts.len());
+            let s = starts[li];
+            // line_start + col - 1 == 2^64 + o  (wraps to o) when s >= o + 2; otherwise just huge
+            let col = if s >= 2 && r.chance(3, 4) {
+                let o = r.usize_below(s - 1);
+                usize::MAX - s + 2 + o
+            } else {
+                usize::MAX - r.usize_below(1000)
+            };
+            qs.push(format!("p{}:{col}", li + 1));
+        }
+        emit(format!("C12 run 0 {} {}", hex_bytes(&t), list(&qs)));
+    }
     for i in 0..n_texts {
         let kind = match i % 10 {
             0 => r.below(2),
